@@ -116,13 +116,13 @@ Definition accepted (c : iclass) : bool := match c with INew => true | _ => fals
     - anything else leaves the store exactly as it was and the operation absent;
     - a second ingest of an inserted operation is a no-op reported as duplicate. *)
 Definition check_val (prune : bool) (h : header) (body : option bytes)
-           (valok : bool) (ing : iclass) (has : bool) (ob tb oa ta : nat)
-           (second : option (iclass * nat * nat)) : bool :=
+           (valok : bool) (ing : iclass) (has : bool) (ob tb oa ta : N)
+           (second : option (iclass * N * N)) : bool :=
   let h := norm h in
   let g := good_b h body in
   Bool.eqb valok g
-  && (if accepted ing then g && has && Nat.eqb oa (S ob) && Nat.eqb ta (S tb)
-      else negb has && Nat.eqb oa ob && Nat.eqb ta tb)
+  && (if accepted ing then g && has && N.eqb oa (ob + 1) && N.eqb ta (tb + 1)
+      else negb has && N.eqb oa ob && N.eqb ta tb)
   && (if g then (if negb prune && N.ltb 0 (h_seq h)
                  then match ing with IRej => true | _ => false end      (* BacklinkMissing on a fresh log *)
                  else match ing with INew => true | _ => false end)
@@ -130,7 +130,7 @@ Definition check_val (prune : bool) (h : header) (body : option bytes)
   && match second with
      | None => true
      | Some (c2, o2, t2) =>
-         Nat.eqb o2 oa && Nat.eqb t2 ta
+         N.eqb o2 oa && N.eqb t2 ta
          && (if accepted ing then match c2 with IDup => true | _ => false end
              else match c2 with IRej => true | _ => false end)
      end.
@@ -146,7 +146,7 @@ Definition class_eqb (a b : option op_error) : bool :=
   String.eqb (show_class a) (show_class b).
 
 Definition check_byte (base_new : bool) (dec : option (header * option bytes * option op_error))
-           (ing : iclass) (has same : bool) (ob tb oa ta : nat) : bool :=
+           (ing : iclass) (has same : bool) (ob tb oa ta : N) : bool :=
   base_new
   && match dec with
      | None => true
@@ -154,7 +154,7 @@ Definition check_byte (base_new : bool) (dec : option (header * option bytes * o
          let h := norm h0 in
          class_eqb (v_operation (mk_op h body)) cls
          && Bool.eqb (match cls with None => true | _ => false end) (good_b h body)
-         && (if accepted ing then same && has && Nat.eqb oa (S ob) && Nat.eqb ta (S tb)
-             else negb has && Nat.eqb oa ob && Nat.eqb ta tb)
+         && (if accepted ing then same && has && N.eqb oa (ob + 1) && N.eqb ta (tb + 1)
+             else negb has && N.eqb oa ob && N.eqb ta tb)
          && (match cls with None => accepted ing | Some _ => match ing with IRej => true | _ => false end end)
      end.
